@@ -6,7 +6,7 @@
      exact  : every float produced by a sub-expression is a binary64 value (exact-rational = IEEE)
      calls  : (resolve_numeric resolve_bool glyph_bitmap resolve_sleep) outcomes *)
 From Coq Require Import ZArith QArith List Bool.
-From RV Require Import Base.Wire Base.Text Lang.PyAst Lang.PySem Lang.PyAstWire Gen.SafeCasts Lang.ConstEval Lang.ConstEnv Lang.ConstFlow.
+From RV Require Import Base.Wire Base.Text Lang.PyAst Lang.PySem Lang.PyAstWire Gen.SafeCasts Lang.ConstEval Lang.ConstEnv Lang.ConstFlow Lang.ConstTuple Lang.ConstNodes.
 Import ListNotations.
 Open Scope Z_scope.
 
@@ -69,30 +69,49 @@ Definition enc_outcome {A} (f : A -> wv) (o : outcome A) : wv :=
   | Folded a => WL [WI 0; f a] | Fallback => WL [WI 1] | Raises k => WL [WI 2; WI (kind_code k)] | OutM => WL [WI 9] end.
 
 (* ---- case 1: (1 program oracle) -> (accepted fresh firmware_outputs python_outputs) ---- *)
-Fixpoint dec_stmt (v : wv) : option stmt :=
+Fixpoint dec_texts (l : list wv) : option (list ident) :=
+  match l with
+  | [] => Some []
+  | x :: r => match un_text x, dec_texts r with Some n, Some ns => Some (n :: ns) | _, _ => None end
+  end.
+Fixpoint dec_exprs (l : list wv) : option (list pexpr) :=
+  match l with
+  | [] => Some []
+  | x :: r => match dec_expr x, dec_exprs r with Some n, Some ns => Some (n :: ns) | _, _ => None end
+  end.
+(* one wire statement -> a block: (9 k targets right-hand-sides) is a tuple assignment, expanded the way the transpiler
+   emits it (Lang/ConstTuple.tuple_assign: temporaries __tmp_assign_k ..., then the targets) *)
+Fixpoint dec_stmt (v : wv) : option (list stmt) :=
   let fix decs (l : list wv) : option (list stmt) :=
     match l with
     | [] => Some []
-    | x :: r => match dec_stmt x, decs r with Some s, Some ss => Some (s :: ss) | _, _ => None end
+    | x :: r => match dec_stmt x, decs r with Some s, Some ss => Some (s ++ ss) | _, _ => None end
     end in
+  let one (o : option stmt) : option (list stmt) := option_map (fun s => [s]) o in
   match v with
-  | WL [WI 0; x; e] => match un_text x, dec_expr e with Some n, Some ex => Some (SAssign n ex) | _, _ => None end
-  | WL [WI 1; x; e] => match un_text x, dec_expr e with Some n, Some ex => Some (SAppend n ex) | _, _ => None end
-  | WL [WI 2; x; e] => match un_text x, dec_expr e with Some n, Some ex => Some (SRemove n ex) | _, _ => None end
-  | WL [WI 3; WI 0; x] => option_map (fun n => SObs (OLen n)) (un_text x)
-  | WL [WI 3; WI 1; x] => option_map (fun n => SObs (OFlash n)) (un_text x)
-  | WL [WI 3; WI 2; e] => option_map (fun ex => SObs (OGlyph ex)) (dec_expr e)
-  | WL [WI 3; WI 3; x] => option_map (fun n => SObs (OVal n)) (un_text x)
-  | WL [WI 8; e] => match dec_expr e with Some (EBin op (EName x) ex) => Some (SAug x op ex) | _ => None end   (* x op= ex, sent as x op (ex) *)
-  | WL [WI 5; WL a; WL b] => match decs a, decs b with Some x, Some y => Some (SIf x y) | _, _ => None end
-  | WL [WI 6; WL a] => option_map SWhile (decs a)
-  | WL [WI 7; x; WL a] => match un_text x, decs a with Some n, Some b => Some (SFor n b) | _, _ => None end
+  | WL [WI 0; x; e] => one (match un_text x, dec_expr e with Some n, Some ex => Some (SAssign n ex) | _, _ => None end)
+  | WL [WI 1; x; e] => one (match un_text x, dec_expr e with Some n, Some ex => Some (SAppend n ex) | _, _ => None end)
+  | WL [WI 2; x; e] => one (match un_text x, dec_expr e with Some n, Some ex => Some (SRemove n ex) | _, _ => None end)
+  | WL [WI 3; WI 0; x] => one (option_map (fun n => SObs (OLen n)) (un_text x))
+  | WL [WI 3; WI 1; x] => one (option_map (fun n => SObs (OFlash n)) (un_text x))
+  | WL [WI 3; WI 2; e] => one (option_map (fun ex => SObs (OGlyph ex)) (dec_expr e))
+  | WL [WI 3; WI 3; x] => one (option_map (fun n => SObs (OVal n)) (un_text x))
+  | WL [WI 8; e] => one (match dec_expr e with Some (EBin op (EName x) ex) => Some (SAug x op ex) | _ => None end)   (* x op= ex, sent as x op (ex) *)
+  | WL [WI 9; WI k; WL xs; WL es] =>
+      match dec_texts xs, dec_exprs es with
+      | Some ns, Some exs =>
+          if Nat.eqb (length ns) (length exs) && tmps_fresh (tmp_names (Z.to_nat k) (length ns)) ns exs
+          then Some (tuple_assign (Z.to_nat k) ns exs) else None
+      | _, _ => None end
+  | WL [WI 5; WL a; WL b] => one (match decs a, decs b with Some x, Some y => Some (SIf x y) | _, _ => None end)
+  | WL [WI 6; WL a] => one (option_map SWhile (decs a))
+  | WL [WI 7; x; WL a] => one (match un_text x, decs a with Some n, Some b => Some (SFor n b) | _, _ => None end)
   | _ => None
   end.
 Fixpoint dec_stmts (l : list wv) : option (list stmt) :=
   match l with
   | [] => Some []
-  | x :: r => match dec_stmt x, dec_stmts r with Some s, Some ss => Some (s :: ss) | _, _ => None end
+  | x :: r => match dec_stmt x, dec_stmts r with Some s, Some ss => Some (s ++ ss) | _, _ => None end
   end.
 Fixpoint dec_nats (l : list wv) : option (list nat) :=
   match l with
@@ -129,7 +148,8 @@ Definition run_env (prog orc : list wv) : wv :=
   | Some p, Some o =>
       WL [ wbool (match tblock p [] [] with Some _ => true | None => false end);
            wbool (is_fresh p); enc_outs (firmware_outputs p o); enc_outs (python_outputs p o);
-           WL (match tblock p [] [] with Some (_, _, res, _) => obs_block res | None => [] end);
+           (* read when parsing is complete, like the emitter (and the harness) reads the IR: Lang/ConstNodes.emitted *)
+           WL (match emitted false p with Some res => obs_block res | None => [] end);
            WL [ wbool (split_ok p); enc_outs (sketch_outputs p o);
                 WL (match ttop p [] [] [] with Some (_, _, gs, _, _, _) => map enc_global gs | None => [] end);
                 WL (match ttop p [] [] [] with Some (_, _, _, body, _, _) => top_assigns body | None => [] end) ];
@@ -140,11 +160,6 @@ Definition run_env (prog orc : list wv) : wv :=
 
 (* ---- case 2: (2 prefix params body mid args oracle) -> (accepted def_ok firmware python static-obs-of-the-body)
    args are expressions evaluated in the module state at the call *)
-Fixpoint dec_texts (l : list wv) : option (list ident) :=
-  match l with
-  | [] => Some []
-  | x :: r => match un_text x, dec_texts r with Some n, Some ns => Some (n :: ns) | _, _ => None end
-  end.
 Fixpoint dec_vals (l : list wv) : option (list pval) :=
   match l with
   | [] => Some []
